@@ -65,7 +65,11 @@ def abs_value(v, memo=None, depth=0):
     memo[key] = (len(memo), v)
     me = memo[key][0]
     if isinstance(v, np.ma.MaskedArray):
-        return ["obj", me, tname(t), ["masked", abs_value(np.asarray(v.data), memo, depth + 1), abs_value(np.asarray(np.ma.getmaskarray(v)), memo, depth + 1)]]
+        # fill_value and hardmask are part of the value (filled(), assignment to masked cells); appended after data and mask so that
+        # consumers reading only [1] and [2] (the Coq model has no notion of them) are unaffected
+        fv = v.fill_value
+        return ["obj", me, tname(t), ["masked", abs_value(np.asarray(v.data), memo, depth + 1), abs_value(np.asarray(np.ma.getmaskarray(v)), memo, depth + 1),
+                                      repr(fv.tolist()) if hasattr(fv, "tolist") else repr(fv), bool(v.hardmask)]]
     if isinstance(v, np.ndarray):
         if v.dtype == object:
             return ["obj", me, tname(t), ["objarray", list(v.shape), [abs_value(x, memo, depth + 1) for x in v.ravel(order="C").tolist()]]]
